@@ -324,6 +324,24 @@ def check(spec) -> Outcome:
     compare(got, exp, "", out)
     if out.failures:
         return out
+    # the returned dictionary is the caller's: edited (emptied, a key added), it does not change what the file decodes to
+    def wreck(d):
+        for v_ in list(d.values()):
+            if isinstance(v_, dict):
+                wreck(v_)
+        d.clear()
+        d["edited-by-caller"] = 1
+
+    if isinstance(got, dict) and spec.get("dump_twice", True):
+        wreck(got)
+        got2, err = lib(hf.as_dict)
+        if err:
+            out.fail(err.sig("hyperv-as_dict-again"), f"a second as_dict() raised {err.describe()}")
+            return out
+        compare(got2, exp, "", out)
+        if out.failures:
+            out.failures[:] = [type(f)("mismatch|hyperv-as_dict-again", "second as_dict() after the caller edited the first result: " + f.message) for f in out.failures[:1]]
+            return out
     # per-leaf access through __getitem__ chains
     by_id = {e["id"]: e for e in spec["entries"]}
     tops = None
